@@ -372,25 +372,25 @@ type recConn struct {
 	arr   int
 }
 
-func (c *recConn) RemoteAddr() string           { return "c19" }
-func (c *recConn) Close() error                 { return nil }
-func (c *recConn) WriteError(msg string)        { c.err = msg }
-func (c *recConn) WriteString(str string)       { c.strs = append(c.strs, str) }
-func (c *recConn) WriteBulk(bulk []byte)        { c.bulks = append(c.bulks, append([]byte{}, bulk...)) }
-func (c *recConn) WriteBulkString(bulk string)  { c.bulks = append(c.bulks, []byte(bulk)) }
-func (c *recConn) WriteInt(num int)             { c.ints = append(c.ints, int64(num)) }
-func (c *recConn) WriteInt64(num int64)         { c.ints = append(c.ints, num) }
-func (c *recConn) WriteArray(count int)         { c.arr = count }
-func (c *recConn) WriteNull()                   { c.null = true }
-func (c *recConn) WriteRaw(data []byte)         {}
-func (c *recConn) Context() interface{}         { return nil }
-func (c *recConn) SetContext(v interface{})     {}
-func (c *recConn) SetReadBuffer(bytes int)      {}
-func (c *recConn) Detach() redcon.DetachedConn  { return nil }
+func (c *recConn) RemoteAddr() string             { return "c19" }
+func (c *recConn) Close() error                   { return nil }
+func (c *recConn) WriteError(msg string)          { c.err = msg }
+func (c *recConn) WriteString(str string)         { c.strs = append(c.strs, str) }
+func (c *recConn) WriteBulk(bulk []byte)          { c.bulks = append(c.bulks, append([]byte{}, bulk...)) }
+func (c *recConn) WriteBulkString(bulk string)    { c.bulks = append(c.bulks, []byte(bulk)) }
+func (c *recConn) WriteInt(num int)               { c.ints = append(c.ints, int64(num)) }
+func (c *recConn) WriteInt64(num int64)           { c.ints = append(c.ints, num) }
+func (c *recConn) WriteArray(count int)           { c.arr = count }
+func (c *recConn) WriteNull()                     { c.null = true }
+func (c *recConn) WriteRaw(data []byte)           {}
+func (c *recConn) Context() interface{}           { return nil }
+func (c *recConn) SetContext(v interface{})       {}
+func (c *recConn) SetReadBuffer(bytes int)        {}
+func (c *recConn) Detach() redcon.DetachedConn    { return nil }
 func (c *recConn) ReadPipeline() []redcon.Command { return nil }
 func (c *recConn) PeekPipeline() []redcon.Command { return nil }
-func (c *recConn) NetConn() net.Conn            { return nil }
-func (c *recConn) Flush() error                 { return nil }
+func (c *recConn) NetConn() net.Conn              { return nil }
+func (c *recConn) Flush() error                   { return nil }
 
 func readCmd(nd *node.KVNode, args ...string) (*recConn, error) {
 	h, ok := nd.GetHandler(strings.ToLower(args[0]))
